@@ -6,6 +6,7 @@ from rules.order import call_named, check_order, report_order
 from sa.deps import Facts, base_name, names_in, pseudo
 from sa.loader import AnalysisError, own_nodes
 from sa.model import u, where
+from sa.pattern import find_expr, find_stmt, has_expr, has_stmt, match_expr, match_stmt
 
 SETTERS = ('inc_attr', 'set_attr')
 COUNTERS = {
@@ -156,9 +157,8 @@ def check(ctx):
     # dotted-path helpers agree with each other (set/inc/get walk the same path)
     for name in ('get_attr', 'set_attr', 'inc_attr'):
         f = db.methods.get(name)
-        body = u(f.node)
-        ok = "prop.split('.')" in body and 'while len(prop) > 1' in body and 'prop.pop(0)' in body and \
-            ('if prop is None' in body)
+        ok = has_stmt("_p = _p.split('.')", f.node) and has_stmt('if _p is None:\n    return', f.node) and \
+            len(find_stmt('while len(_p) > 1:\n    _o = __STEP', f.node)) == 1 and has_expr('_p.pop(0)', f.node)
         run.check(ok, 'R19r', f.where, f.qualname, 'dotted path walk, None disables',
                   '%s does not walk the dotted counter path / honour a disabled (None) counter' % name)
     inc = db.methods.get('inc_attr')
@@ -221,8 +221,8 @@ def check(ctx):
               'nondeterministic source in a dumper: %s' % [(where(repo, c), en) for c, en in hits])
     # hash of exactly the bytes: hash_handler rewinds and reads to the end
     hh = fd.methods.get('hash_handler')
-    body = u(hh.node)
-    run.check('.seek(0)' in body and 'while' in body and '.read(' in body and '.update(' in body, 'DET', hh.where, hh.qualname,
+    run.check(has_expr('_f.seek(0)', hh.node) and has_expr('_f.read(___)', hh.node) and has_expr('_h.update(___)', hh.node)
+              and any(isinstance(x, ast.While) for x in ast.walk(hh.node)), 'DET', hh.where, hh.qualname,
               'seek(0); read until empty; update', 'the hash does not cover the whole written file')
     run.trusted += ['LF1', 'tell() of a text-mode temp file equals its byte size for UTF-8 output']
     run.not_decided += ['that tell() equals the byte size for every text; determinism of third-party writers (openpyxl)']
